@@ -36,7 +36,7 @@ def run_demo(demo: Path, wt: Path):
     try:
         Path(d, 'biogeme.toml').write_text('')
         env = dict(os.environ, PYTHONPATH=str(wt / 'src'), PYTHONWARNINGS='ignore')
-        rc, out = sh([PY, str(demo)], cwd=d, env=env, timeout=900)
+        rc, out = sh([PY, str(Path(demo).resolve())], cwd=d, env=env, timeout=900)
         return rc, out[-1500:]
     finally:
         shutil.rmtree(d, ignore_errors=True)
@@ -78,7 +78,7 @@ def main():
         if args.tests:
             t0 = time.time()
             rc, o = sh([PY, '-m', 'pytest', '-q', '-p', 'no:cacheprovider', '--timeout=900', '--continue-on-collection-errors', '-x', '-q'], cwd=str(wt), env=env, timeout=3600)
-            tail = [l for l in o.splitlines() if 'passed' in l or 'failed' in l][-1:] or [o[-200:]]
+            tail = [l for l in o.splitlines() if (' passed' in l or ' failed' in l) and ' in ' in l][-1:] or [o[-200:]]
             meta['test_suite'] = {'exit': rc, 'summary': tail[0], 'wall_s': round(time.time() - t0)}
         # the check
         env2 = dict(env, VERIF_OUT=str(out_dir))
@@ -107,8 +107,16 @@ def main():
         sh(['git', '-C', '/repo', 'worktree', 'prune'])
     dest = VERIF / 'seeded' / args.seed_id
     dest.mkdir(parents=True, exist_ok=True)
-    shutil.copy(args.patch, dest / 'patch.diff')
-    shutil.copy(args.demo, dest / 'demo.py')
+    if (dest / 'meta.json').exists():
+        old = json.loads((dest / 'meta.json').read_text())
+        for k in ('test_suite', 'needs_to_manifest', 'notes'):
+            if not meta.get(k) and old.get(k):
+                meta[k] = old[k]
+        meta['first_run_before_strengthening'] = old.get('first_run_before_strengthening') or {'caught': old.get('caught'), 'check': old.get('check', {}).get('lines', [])[-1:]}
+    if Path(args.patch).resolve() != (dest / 'patch.diff').resolve():
+        shutil.copy(args.patch, dest / 'patch.diff')
+    if Path(args.demo).resolve() != (dest / 'demo.py').resolve():
+        shutil.copy(args.demo, dest / 'demo.py')
     (dest / 'meta.json').write_text(json.dumps(meta, indent=1))
     print(json.dumps({k: meta.get(k) for k in ('seed', 'property', 'demo_discriminates', 'caught', 'caught_with_concrete_input')}, indent=None), meta.get('check', {}).get('lines', [])[-1:] )
     return 0
